@@ -74,6 +74,7 @@ type Task struct {
 	Killed             bool // ended by teardown
 	EscapedPanic       any  // a panic that unwound out of the goroutine's function
 	IsScriptGo         bool // spawned by a script `go` (through simrt.Go)
+	solo               bool // Solo mode: never parks
 }
 
 // LogEntry is one scheduling decision.
@@ -153,7 +154,7 @@ func current() (*Sim, *Task) {
 	if s == nil {
 		return nil, nil
 	}
-	id := goid()
+	id := gkey()
 	s.mu.Lock()
 	t := s.byGoid[id]
 	s.mu.Unlock()
@@ -202,7 +203,7 @@ func (s *Sim) newTask(id string) *Task {
 
 func (s *Sim) start_(t *Task, fn func()) {
 	go func() {
-		gid := goid()
+		gid := gkey()
 		s.mu.Lock()
 		s.byGoid[gid] = t
 		s.mu.Unlock()
@@ -251,6 +252,17 @@ func Go(fn func()) {
 }
 
 func (s *Sim) yield(t *Task, kind string, ready func() bool) {
+	if t.solo {
+		s.mu.Lock()
+		s.Step++
+		ok := ready == nil || ready()
+		s.mu.Unlock()
+		if !ok {
+			s.violate("self-deadlock", "the only task waits for a lock it can never get ("+kind+")", t)
+			panic("simrt: self-deadlock in solo mode")
+		}
+		return
+	}
 	s.mu.Lock()
 	if s.kill {
 		t.Killed = true
@@ -780,3 +792,28 @@ func (c *Ctx) Cancel() {
 
 // Cancelled reports whether Cancel was delivered.
 func (c *Ctx) Cancelled() bool { return c.cancelled.Load() }
+
+// ---------------------------------------------------------------------------
+// solo mode
+
+// Solo runs fn on the calling goroutine as the only task of a simulation that
+// never parks: no bubble and no scheduler are needed, but the sim mutexes
+// still track ownership, so the lockset probes and the unlock checks stay
+// armed. Used for single-task (sequential-history) configurations.
+func Solo(fn func()) *Sim {
+	s := &Sim{byGoid: map[uint64]*Task{}, Counters: map[string]int{}, MaxSteps: 1 << 62, start: time.Now()}
+	t := &Task{ID: "solo", sim: s, ObservedCancelStep: -1, FinishedStep: -1, solo: true}
+	s.tasks = append(s.tasks, t)
+	gid := gkey()
+	s.byGoid[gid] = t
+	cur.Store(s)
+	defer func() {
+		s.mu.Lock()
+		delete(s.byGoid, gid)
+		t.state = Done
+		s.mu.Unlock()
+		cur.CompareAndSwap(s, nil)
+	}()
+	fn()
+	return s
+}
